@@ -18,8 +18,8 @@ use std::sync::Arc;
 pub const ID: &str = "C06";
 
 /// The quick sweep covers a fixed set of small fixtures: all four formats, VBA (xlsm and xls),
-/// tables, merged regions, annotations, repeated rows, rich text, BIFF5, a password file.
-const QUICK_SWEEP: [&str; 14] = [
+/// tables, merged regions, annotations, repeated rows, rich text, BIFF5, a password file, CONTINUE records.
+const QUICK_SWEEP: [&str; 15] = [
     "any_sheets.xls",
     "any_sheets.xlsx",
     "any_sheets.xlsb",
@@ -34,6 +34,7 @@ const QUICK_SWEEP: [&str; 14] = [
     "with-annotation.ods",
     "number_rows_repeated.ods",
     "pass_protected.xlsx",
+    "picture.xls",
 ];
 
 pub struct Layout {
@@ -207,7 +208,11 @@ pub fn exec_spec(ctx: &mut Ctx, spec: &RunSpec, idx: u64) -> RunResult {
         None => return RunResult { idx, outcome: format!("harness: unknown file {}", spec.file), ..Default::default() },
     };
     let parts = ctx.parts.entry(fx.name.clone()).or_insert_with(|| Parts::new(&fx.bytes));
-    let built = match image::build(&fx.bytes, parts, spec.inner.as_deref(), &spec.stored_faults) {
+    // the fault combination may be inapplicable (e.g. a stream fault on a container that an
+    // earlier fault of the same run already destroyed): that is a skipped run, not a verdict
+    let built = std::panic::catch_unwind(std::panic::AssertUnwindSafe(|| image::build(&fx.bytes, parts, spec.inner.as_deref(), &spec.stored_faults)));
+    let _ = crate::guard::take_panic();
+    let built = match built.unwrap_or_else(|_| Err("harness panic while building the image".to_string())) {
         Ok(b) => b,
         Err(e) => {
             return RunResult { idx, exec: spec_hash(spec), outcome: format!("harness:image-not-built ({})", e), spec: Some(spec.clone()), ..Default::default() };
